@@ -30,6 +30,13 @@ def run_sequence(formats, fobjs, reqs, via_command=False, throwaway=False):
 
 
 def run(ctx):
+    try:
+        _run(ctx)
+    except L.GiveUp:   # parses that do not terminate: judged, nothing more is generated
+        L.judge_hangs(ctx, SPEC)
+
+
+def _run(ctx):
     quick = ctx.tier == "quick"
     ctx.rule = (
         "TLC runs every sequence of MaxReqs requests (3 formats sharing option names x strict/lenient x 9 lines = 54 requests) on "
